@@ -211,6 +211,15 @@ theorem inv1_step (s : St) (e : Ev) (h : Inv1 s) : Inv1 (step .repaired s e) := 
     split
     · constructor <;> simp_all [Phase.concluded]
     · exact ⟨h1, h2, h3, h4, h5, h6, h7⟩
+  | cancelCall serial =>
+    simp only [step]
+    split
+    · split
+      · split
+        · exact ⟨h1, h2, h3, h4, h5, h6, h7⟩
+        · constructor <;> simp_all [Phase.concluded]
+      · exact ⟨h1, h2, h3, h4, h5, h6, h7⟩
+    · exact ⟨h1, h2, h3, h4, h5, h6, h7⟩
 
 theorem inv1_run (h : List Ev) : ∀ s : St, Inv1 s → Inv1 (run .repaired s h) := by
   induction h with
@@ -251,6 +260,13 @@ theorem concluded_step (s : St) (e : Ev) (hc : s.phase.concluded = true) :
       · exact hc
     · exact hc
   | authProgress => exact hc
+  | cancelCall serial =>
+    simp only [step]
+    split
+    · split
+      · split <;> simp_all
+      · exact hc
+    · exact hc
   | _ => simp only [step] <;> split <;> simp_all [issueCall, makeProxy, makeProxyCbs, Phase.concluded]
 
 theorem concluded_run (h : List Ev) : ∀ s : St, s.phase.concluded = true → (run .repaired s h).phase.concluded = true := by
@@ -374,6 +390,13 @@ theorem fired_stable_step (s : St) (e : Ev) (hi : Inv1 s) (hc : s.phase.conclude
       · rfl
     · rfl
   | authProgress => rfl
+  | cancelCall serial =>
+    simp only [step]
+    split
+    · split
+      · split <;> simp
+      · rfl
+    · rfl
   | _ => simp only [step] <;> split <;> simp_all [issueCall, makeProxy, makeProxyCbs]
 
 theorem fired_stable_run (h : List Ev) : ∀ s : St, Inv1 s → s.phase.concluded = true →
